@@ -1347,11 +1347,21 @@ fn extract_agentpack_invocations(line: &str) -> Vec<Vec<String>> {
 }
 
 fn is_agentpack_token(token: &str) -> bool {
-    if token == "agentpack" {
-        return true;
+    // `AGENTPACK_HOME=~/agentpack agentpack lock`: an assignment is not the command word.
+    if is_env_assignment(token) {
+        return false;
     }
     let token = token.trim_matches(|c| c == '"' || c == '\'');
-    token.ends_with("/agentpack") || token.ends_with("\\agentpack.exe")
+    token == "agentpack" || token.ends_with("/agentpack") || token.ends_with("\\agentpack.exe")
+}
+
+fn is_env_assignment(token: &str) -> bool {
+    let Some((name, _)) = token.split_once('=') else {
+        return false;
+    };
+    !name.is_empty()
+        && !name.starts_with(|c: char| c.is_ascii_digit())
+        && name.chars().all(|c| c.is_ascii_alphanumeric() || c == '_')
 }
 
 fn is_shell_separator(token: &str) -> bool {
